@@ -50,6 +50,15 @@ check("C03", "exploration",
       "reference decoder transcribes patch-delta.c and is cross-checked against C git in the same run; deltas shorter than git's DELTA_SIZE_MIN are not offered to the git decoder; lenient acceptance (invalid trailing op skipped) is tolerated when the output has the declared length and is composed of the valid ops",
       "DESIGN.md §5 C03")
 
+check("C15", "exploration",
+      "differential runtime monitor over the Python/Rust twin functions in crash-isolated workers (panics, aborts, allocation failures observed), plus a repository-level battery run with the rebuilt extensions and with the extensions blocked",
+      "parse_tree, sorted_tree_items, apply_delta, create_delta, bisect_find_sha, _merge_entries, _is_tree, _count_blocks are called "
+      "pairwise (Python function object kept by dulwich vs. the extension rebuilt from the working tree) on generated inputs covering the "
+      "quantifier's classes (odd mode spellings, missing terminators, both id lengths, prefix-related names, the C03 hostile delta corpus, "
+      "index offsets to 2^40, block boundaries); outcome class and values must agree. Decides the property on the inputs generated.",
+      "argument types outside the documented ones, names containing '/' or NUL and id lengths other than 20/32 are outside the statement and not generated; dev-profile build of the crates",
+      "DESIGN.md §5 C15")
+
 ALL = ["C%02d" % i for i in range(1, 21)]
 
 
